@@ -141,8 +141,20 @@ def run(E: Engine, rep: Report, tier: str) -> dict:
     m2 = has(r2, M2)
     mv = has(rv, M2 + " - state.overlap(Q_h)")
     hs = sym.Pattern("hamiltonian.apply_to(state)").term
-    rep.check(m2 is not None and mv is not None and unobj(m2["Q_h"]) == hs and unobj(mv["Q_h"]) == hs, "GUARD", "Energy moments|H-applied-to-the-given-state", "h_state = hamiltonian.apply_to(state) in both", "the energy moments no longer apply the given hamiltonian to the given state", E.where(e2))
-    rep.check(m2 is not None and mv is not None, "SIB", "EnergyVariance|second-moment-minus-squared-mean", "variance = <second-moment expression> - state.overlap(h_state)", f"EnergyVariance computes `{sh(rv, 160)}` while EnergySecondMoment computes `{sh(r2, 120)}`: the variance must be the second moment minus the squared mean", E.where(ev))
+    # the moments are expectation values, which are defined for kets AND density matrices: <H^2> = (H @ H).expect(state),
+    # variance = <H^2> - <H>^2.  The norm of H|psi> (sqrt(<h|h>) with h = H.apply_to(state)) is <H^2> for kets only: for a
+    # density matrix apply_to gives H rho H^dagger and overlap is Tr[AB]
+    H2 = "(hamiltonian @ hamiltonian).expect(state)"
+    new2 = has(r2, H2) is not None and not mentions(r2, "apply_to")
+    newv = has(rv, H2) is not None and has(rv, "hamiltonian.expect(state)") is not None and any(t[0] == "bin" and t[1] == "Pow" and t[3] == ("const", 2) for t in sym.subterms(rv)) and not mentions(rv, "apply_to")
+    if m2 is not None or mv is not None:
+        rep.violation("GUARD", "Energy moments|defined-for-density-matrices", "EnergySecondMoment / EnergyVariance are computed from h = hamiltonian.apply_to(state) as sqrt(h.overlap(h)) and state.overlap(h): that is <H^2> and <H> only for kets -- for a density matrix the values are sqrt(Tr[(H rho H)^2]) and Tr[rho H rho H] (rho = I/2, H = sigma_z gives 0.707 and 0.207 instead of 1 and 1)", E.where(e2))
+    if new2 and newv:
+        rep.ok("GUARD", "Energy moments|H-applied-to-the-given-state", "(hamiltonian @ hamiltonian).expect(state) and hamiltonian.expect(state) of the given arguments", E.where(e2))
+        rep.ok("SIB", "EnergyVariance|second-moment-minus-squared-mean", "variance = <H^2> - <H>^2 with the second moment's own expression", E.where(ev))
+        m2 = mv = None
+    rep.check(new2 and newv or (m2 is not None and mv is not None and unobj(m2["Q_h"]) == hs and unobj(mv["Q_h"]) == hs), "GUARD", "Energy moments|H-applied-to-the-given-state" + ("" if not (new2 and newv) else "|expect-form"), "h_state = hamiltonian.apply_to(state) in both", "the energy moments no longer apply the given hamiltonian to the given state", E.where(e2))
+    rep.check((new2 and newv) or (m2 is not None and mv is not None), "SIB", "EnergyVariance|second-moment-minus-squared-mean" + ("" if not (new2 and newv) else "|expect-form"), "variance = <second-moment expression> - state.overlap(h_state)", f"EnergyVariance computes `{sh(rv, 160)}` while EnergySecondMoment computes `{sh(r2, 120)}`: the variance must be the second moment minus the squared mean", E.where(ev))
     rep.floor("SIB", 1)
     # H(t) handed to the observables is evaluated on the emulator's own time axis, identically in both branches
     ok = len(obs_calls) >= 2
